@@ -5,7 +5,7 @@
     state and the abstract (phase, transaction) state, preserved by every round
     of the command loop; the facts about the commands[] table that the proof
     needs are checked by computation on the table regenerated from the C. *)
-From Qv Require Import Common.Bytes Gen.GenNetio Gen.GenSession Model.NetRead Model.Session Spec.SessionSpec.
+From Qv Require Import Common.Bytes Gen.GenNetio Gen.GenSession Model.NetRead Model.Session Spec.SessionSpec Proofs.AuthSync Proofs.EsmtpSync.
 From Coq Require Import Lia ZArith.
 
 (** ---------- the commands[] table, as far as the properties depend on it ---------- *)
@@ -13,6 +13,7 @@ Definition entry_ok (ie : nat * (list N * N * nat * Z * N)) : bool :=
   let '(i, (_, mask, hid, st, _)) := ie in
   match hid with
   | 0 | 10 | 12 => Z.ltb st 0                                   (* NOOP, VRFY, POST: state unchanged *)
+  | 9 => N.eqb mask 16 && Z.ltb st 0                             (* AUTH only in 0x10 (after EHLO): state unchanged *)
   | 2 => Z.eqb st 1                                              (* RSET before a greeting: initial state *)
   | 3 => Z.eqb st 0 && Nat.eqb i 3                               (* HELO -> 0x08 *)
   | 4 => Z.eqb st 0 && Nat.eqb i 4                               (* EHLO -> 0x10 *)
@@ -166,11 +167,12 @@ Lemma relay_decide_spec s cls allowed s1 pre : relay_decide o s cls = (allowed, 
   comstate s1 = comstate s /\ mailfrom s1 = mailfrom s /\ rcpts s1 = rcpts s
   /\ rcptcount s1 = rcptcount s /\ goodrcpt s1 = goodrcpt s /\ Irel (relayclient s1)
   /\ (pre = [] \/ pre = [Reply 421])
-  /\ (pre = [] -> allowed = true -> cls = RNotLocal -> (0 <? o_relay o)%Z = true).
+  /\ (pre = [] -> allowed = true -> cls = RNotLocal -> (0 <? o_relay o)%Z = true \/ authed s = true).
 Proof.
   unfold relay_decide, Irel. intros H HI. destruct cls.
   - inversion H; subst. repeat split; auto. discriminate.
-  - destruct (N.eqb (relayclient s) 0) eqn:E0.
+  - destruct (authed s) eqn:Eau. { inversion H; subst. repeat split; auto. }
+    destruct (N.eqb (relayclient s) 0) eqn:E0.
     + destruct (Z.ltb (o_relay o) 0) eqn:Eneg.
       * inversion H; subst. simpl. repeat split; auto; discriminate.
       * destruct (Z.ltb 0 (o_relay o)) eqn:Epos; inversion H; subst; simpl; repeat split; auto; discriminate.
@@ -197,7 +199,7 @@ Proof.
   - destruct Hph. auto.
 Qed.
 
-Lemma h_rcpt_spec s a arg evs h s' : R s a -> (comstate s = 32%N \/ comstate s = 64%N) ->
+Lemma h_rcpt_spec s a arg evs h s' : R s a -> a_auth a = authed s -> (comstate s = 32%N \/ comstate s = 64%N) ->
   h_rcpt o s arg = (evs, h, s') ->
   exists a', trace_run o evs a = Some a' /\ queue_run o evs QIdle = Some QIdle
     /\ Irel (relayclient s')
@@ -207,7 +209,7 @@ Lemma h_rcpt_spec s a arg evs h s' : R s a -> (comstate s = 32%N \/ comstate s =
        | _ => Rc (comstate s') (mailfrom s') (rcpts s') (rcptcount s') (goodrcpt s') a'
        end.
 Proof.
-  intros [HR HI] Hc H. unfold h_rcpt in H.
+  intros [HR HI] HA Hc H. unfold h_rcpt in H.
   (* outcomes that leave the transaction alone *)
   assert (K452 : MAXRCPT <= rcptcount s ->
             Rc 64 (mailfrom s) (rcpts s) (rcptcount s) (goodrcpt s) a).
@@ -284,8 +286,9 @@ Proof.
         destruct (a_stored a) eqn:Es; [reflexivity|].
         destruct Eb2 as [E|E]; [apply Nat.ltb_ge in E; lia|rewrite Hmf in E; discriminate]. }
       assert (Hmax : Nat.leb MAXRCPT (a_stored a) = false) by (apply Nat.leb_gt; lia).
-      assert (Hrel : (match cls with RNotLocal => negb (0 <? o_relay o)%Z | RLocal => false end) = false).
-      { destruct cls; [reflexivity|]. rewrite (Hrelay eq_refl Eal eq_refl). reflexivity. }
+      assert (Hrel : (match cls with RNotLocal => negb (0 <? o_relay o)%Z && negb (a_auth a) | RLocal => false end) = false).
+      { destruct cls; [reflexivity|]. destruct (Hrelay eq_refl Eal eq_refl) as [Hr|Hr]; [rewrite Hr; reflexivity|].
+        rewrite HA, Hr. apply andb_false_r. }
       eexists. split.
       { cbn [trace_run trace_step]. rewrite Htxn. rewrite Hnb, Hmax, Hrel. reflexivity. }
       split; [reflexivity|]. cbn [comstate mailfrom rcpts rcptcount goodrcpt relayclient].
@@ -480,7 +483,7 @@ Proof.
   set (sq := {| rd := rd s2; comstate := comstate s2; qcount := S k; rcpts := rcpts s2; mailfrom := mailfrom s2 |}) in H.
   destruct (data_loop f o _ (rd sq) _) as [de r'] eqn:Edl.
   (* the abstract state after the boundary *)
-  set (ab := {| a_phase := PHelo; a_txn := None; a_stored := 0 |}).
+  set (ab := {| a_phase := PHelo; a_txn := None; a_stored := 0; a_auth := a_auth a; a_esmtp := a_esmtp a |}).
   assert (Htr1 : trace_run o [Note (NData k); Reply 354] a = Some a).
   { cbn [trace_run trace_step]. rewrite Htxn, Ers. reflexivity. }
   assert (Hbd : trace_step o (Note NBoundary) a = Some ab).
@@ -601,10 +604,10 @@ Proof.
   rewrite (quiet_queue_idle _ Hq). destruct h; try (split; [auto|exact HR]). congruence.
 Qed.
 
-Lemma dispatch_spec f s a l evs h s1 : R s a -> dispatch f o s l = (evs, h, s1) ->
+Lemma dispatch_spec f s a l evs h s1 : R s a -> a_auth a = authed s -> K s (a_esmtp a) -> dispatch f o s l = (evs, h, s1) ->
   exists a', trace_run o evs a = Some a' /\ post evs h s1 a'.
 Proof.
-  intros HRI H. pose proof HRI as [HR HI]. unfold dispatch in H.
+  intros HRI HA HK H. pose proof HRI as [HR HI]. unfold dispatch in H.
   destruct (negb (line_valid l)).
   { inversion H; subst. apply post_quiet_keep; [exact HRI|reflexivity|discriminate]. }
   destruct (find_cmd commands 0 l) as [[i [[[[name mask] hid] st] flags]]|] eqn:Ef.
@@ -692,7 +695,7 @@ Proof.
     assert (Hc : comstate s = 32%N \/ comstate s = 64%N).
     { destruct Hcs as [E|[E|[E|[E|E]]]]; rewrite E in Emask; auto; exfalso; apply Emask; reflexivity. }
     destruct (h_rcpt o s (skipn (length name) l)) as [[e h'] s'] eqn:Eh.
-    destruct (h_rcpt_spec _ _ _ _ _ _ HRI Hc Eh) as (a' & Htr & Hqu & HI' & Hres).
+    destruct (h_rcpt_spec _ _ _ _ _ _ HRI HA Hc Eh) as (a' & Htr & Hqu & HI' & Hres).
     destruct h'; inversion H; subst; try contradiction;
       exists a'; (split; [exact Htr|]); (split; [exact HI'|]);
       try (split; [exact Hqu|exact Hres]); try (split; [right; exact Hqu|exact Hres]).
@@ -715,7 +718,20 @@ Proof.
   - (* 8 STARTTLS *)
     inversion H; subst. apply post_quiet_keep; [exact HRI|reflexivity|discriminate].
   - (* 9 AUTH *)
-    inversion H; subst. apply post_quiet_keep; [exact HRI|reflexivity|discriminate].
+    apply andb_true_iff in Hent as [Hm16 Hent]. apply N.eqb_eq in Hm16. subst mask.
+    assert (Hc16 : comstate s = 16%N).
+    { destruct Hcs as [E|[E|[E|[E|E]]]]; rewrite E in Emask; auto; exfalso; apply Emask; reflexivity. }
+    assert (Hesm : a_esmtp a = true) by (apply (proj2 HK); exact Hc16).
+    apply Z.ltb_lt in Hent.
+    destruct (authed s || negb (o_authperm o)).
+    { inversion H; subst. apply post_quiet_keep; [exact HRI|reflexivity|discriminate]. }
+    destruct (o_auth o (skipn 5 l)) as [nm|c|].
+    + destruct (Z.ltb 0 st) eqn:E1; [apply Z.ltb_lt in E1; lia|].
+      destruct (Z.eqb st 0) eqn:E2; [apply Z.eqb_eq in E2; lia|].
+      inversion H; subst. eexists. split; [cbn [trace_run trace_step]; rewrite Hesm; reflexivity|].
+      split; [exact HI|]. split; [reflexivity|]. exact HR.
+    + inversion H; subst. apply post_quiet_keep; [exact HRI|reflexivity|discriminate].
+    + inversion H; subst. exists a. split; [reflexivity|]. split; [exact HI|]. simpl. discriminate.
   - (* 10 VRFY *)
     apply Z.ltb_lt in Hent.
     destruct (Z.ltb 0 st) eqn:E1; [apply Z.ltb_lt in E1; lia|].
@@ -742,16 +758,16 @@ Qed.
 Lemma R_set_rd s r a : R s a -> R (set_rd s r) a.
 Proof. intros H. exact H. Qed.
 
-Lemma step_spec f s a evs so : R s a -> step f o s = (evs, so) ->
+Lemma step_spec f s a evs so : R s a -> a_auth a = authed s -> K s (a_esmtp a) -> step f o s = (evs, so) ->
   exists a', trace_run o evs a = Some a' /\ queue_run o evs QIdle <> None
     /\ (forall s', so = Some s' -> R s' a' /\ queue_run o evs QIdle = Some QIdle).
 Proof.
-  intros HR H. unfold step in H.
+  intros HR HA HK H. unfold step in H.
   destruct (net_read (rd s)) as [it r'].
   pose proof (R_set_rd s r' a HR) as HR0.
   destruct it as [l| | | |].
   - destruct (dispatch f o (set_rd s r') l) as [[e h] s1] eqn:Ed.
-    destruct (dispatch_spec _ _ _ _ _ _ _ HR0 Ed) as (a' & Htr & HI & Hpost).
+    destruct (dispatch_spec _ _ _ _ _ _ _ HR0 HA HK Ed) as (a' & Htr & HI & Hpost).
     assert (Hgen : forall ev so', on_error s1 h = (ev, so') ->
               (queue_run o e QIdle = Some QIdle \/ (queue_run o e QIdle = Some QFailed /\ (h = HE2BIG \/ h = HEMSGSIZE))) ->
               RcS (comstate s1) s1 a' ->
@@ -788,22 +804,26 @@ Proof.
   - inversion H; subst. exists a. split; [reflexivity|]. split; [simpl; discriminate|]. discriminate.
 Qed.
 
-Lemma serve_spec fuel : forall s a, R s a ->
+Lemma serve_spec fuel : forall s a, R s a -> a_auth a = authed s -> K s (a_esmtp a) ->
   trace_run o (serve fuel o s) a <> None /\ queue_run o (serve fuel o s) QIdle <> None.
 Proof.
-  induction fuel as [|f IH]; intros s a HR; cbn [serve]; [split; discriminate|].
+  induction fuel as [|f IH]; intros s a HR HA HK; cbn [serve]; [split; discriminate|].
   destruct (step f o s) as [ev so] eqn:Es.
-  destruct (step_spec _ _ _ _ _ HR Es) as (a' & Htr & Hq & Hnext).
+  destruct (step_spec _ _ _ _ _ HR HA HK Es) as (a' & Htr & Hq & Hnext).
   rewrite trace_run_app, queue_run_app, Htr.
   destruct so as [s'|].
-  - destruct (Hnext s' eq_refl) as (HR' & Hq'). rewrite Hq'. apply IH. exact HR'.
+  - destruct (Hnext s' eq_refl) as (HR' & Hq'). rewrite Hq'. apply IH; [exact HR'| |].
+    + (* "authenticated" stays in step: both sides change exactly at an AUTH note *)
+      rewrite (trace_run_auth o _ _ _ Htr), (step_auth o _ _ _ _ Es), HA. reflexivity.
+    + (* "the last accepted greeting was EHLO" follows the greeting notes *)
+      rewrite (trace_run_esm o _ _ _ Htr). exact (step_esm o _ _ _ _ _ Es HK).
   - split; [discriminate|]. destruct (queue_run o ev QIdle); [discriminate|congruence].
 Qed.
 
 Theorem session_trace_ok chunks : trace_ok o (run_session o chunks) /\ queue_ok o (run_session o chunks).
 Proof.
   unfold trace_ok, queue_ok, run_session. cbn [trace_run trace_step queue_run queue_step].
-  apply serve_spec. split.
+  apply serve_spec; [split|reflexivity|split; discriminate].
   - unfold init_state, Rc, a_init. cbn. repeat split; auto.
   - unfold Irel, init_state. cbn. discriminate.
 Qed.
@@ -828,17 +848,31 @@ Proof.
   apply bytes_eqb_eq in Eb. exists a, f, rs. auto.
 Qed.
 
-(** no open relay: a recipient outside rcpthosts is accepted only if the relay list matched the client *)
+(** no open relay: a recipient outside rcpthosts is accepted only if the relay list matched the client or an AUTH
+    succeeded earlier on the same connection (a note [NAuth name], name not empty, stands before it in the trace) *)
 Theorem remote_rcpt_needs_relay chunks pre addr post :
-  run_session o chunks = pre ++ Note (NRcpt addr RNotLocal) :: post -> (0 < o_relay o)%Z.
+  run_session o chunks = pre ++ Note (NRcpt addr RNotLocal) :: post -> (0 < o_relay o)%Z \/ has_auth pre = true.
 Proof.
   intros E. destruct (session_trace_ok chunks) as [Ht _]. unfold trace_ok in Ht. rewrite E in Ht.
   destruct (trace_run_prefix pre _ a_init Ht) as (a & Ha).
   rewrite trace_run_app, Ha in Ht. cbn [trace_run trace_step] in Ht.
+  pose proof (trace_run_auth o _ _ _ Ha) as Hau. cbn [a_auth a_init orb] in Hau.
   destruct (a_txn a) as [[f rs]|]; [|congruence].
   destruct (match f, a_stored a with [], S _ => true | _, _ => false end); [congruence|].
   destruct (Nat.leb MAXRCPT (a_stored a)); [congruence|].
-  destruct (Z.ltb 0 (o_relay o)) eqn:Er; [apply Z.ltb_lt in Er; exact Er|]. simpl in Ht. congruence.
+  destruct (Z.ltb 0 (o_relay o)) eqn:Er; [apply Z.ltb_lt in Er; left; exact Er|].
+  destruct (a_auth a) eqn:Eau; [right; now rewrite <- Hau|]. simpl in Ht. congruence.
+Qed.
+
+(** AUTH is accepted only in ESMTP mode: the last greeting accepted before it was an EHLO (C09) *)
+Theorem auth_needs_ehlo chunks pre n post :
+  run_session o chunks = pre ++ Note (NAuth n) :: post -> esm_run pre false = true.
+Proof.
+  intros E. destruct (session_trace_ok chunks) as [Ht _]. unfold trace_ok in Ht. rewrite E in Ht.
+  destruct (trace_run_prefix pre _ a_init Ht) as (a & Ha).
+  rewrite trace_run_app, Ha in Ht. cbn [trace_run trace_step] in Ht.
+  pose proof (trace_run_esm o _ _ _ Ha) as He. cbn [a_esmtp a_init] in He.
+  destruct (a_esmtp a) eqn:Ee; [now rewrite <- He|]. cbn [negb] in Ht. congruence.
 Qed.
 
 (** a hand-off happens only for a qmail-queue invocation that accepted the message *)
